@@ -120,6 +120,22 @@ PROPS = {
                  "HTTP status codes other than 200/404", "common names longer than 2 characters"],
         assumptions=["cryptography's x509 objects behave as the two accessors the auth helpers use"],
     ),
+    "C18": dict(
+        modules=["harness.c18"],
+        level="other",
+        explanation="Bounded symbolic execution of the real PolicyDirectoryMonitor (constructor, scan_policies, the "
+                    "cache-stack helpers, get_json_files) over a fake file system, with the event history symbolic "
+                    "(which file, which content, per event) and the policy definitions opaque symbolic tokens, compared "
+                    "after every scan with a reference model written from the statement; and of the real "
+                    "read_policy_from_file/parse_policy on documents whose shape at every level is chosen by symbolic "
+                    "selectors.",
+        stubs=["FakeFS: os.listdir, os.path.getmtime, read_policy_from_file (monitor conditions)", "signal.signal no-op",
+               "time.time pinned", "open()/json.loads hand over the symbolic document (parser conditions)", "NullLogger"],
+        outside=["histories longer than the bounds", "more than 3 files, more than 2 policy names",
+                 "edits that do not advance the file's modification time (the monitor cannot see them)",
+                 "the multiprocessing manager's dict proxy (a plain dict stands in)"],
+        assumptions=["a file's modification time strictly increases whenever its content changes and is >= 1"],
+    ),
     "C15": dict(
         modules=["harness.c15"],
         level="other",
@@ -177,6 +193,15 @@ PROPS = {
 }
 
 CLAIMS = {
+    "C18": dict(
+        text="After every scan of every history within the bounds (3 symbolic events over 2 files and 7 contents; 2-3 "
+             "further symbolic events behind shadowing prefixes over 2-3 files) the policy store equals the reference "
+             "model of the statement: each name maps to the definition of the most recently loaded present file that "
+             "still defines it, undefined names are gone, built-ins unchanged, an invalid file changes nothing; every "
+             "JSON-like document in the shape menu either parses to the reference result or raises ValueError.",
+        note="File system, clock and the file reader are stubs for the monitor conditions; open()/json.loads are stubs "
+             "for the parser conditions; definitions are opaque symbolic tokens.",
+    ),
     "C17": dict(
         text="For every certificate shape (absent; EKU absent / without / with clientAuth; 0-2 common names of any "
              "text), either value of the TLS-auth flag, and every plugin configuration in the sliced menu (no block, "
